@@ -59,7 +59,7 @@ void h_grow_shared(void) {
         OBL(mem.pages <= mem.maxPages && (U64)mem.size == (U64)mem.pages * 65536u, "shared grow: never exceeds the declared maximum, size consistent");
     } else {
         OBL(mem.pages == before && (U64)mem.size == (U64)before * 65536u, "shared grow: a failed grow changes nothing");
-        OBL((U64)before + (U64)delta > (U64)maxPages, "shared grow: fails only if the count at the linearization point plus delta exceeds the maximum");
+        /* (the specification lets memory.grow fail for other reasons too; the property only asks that a failed grow changes nothing) */
     }
     CANARY("shared grow returns");
 }
